@@ -9,9 +9,9 @@ def source(seed, n_seeds, n_msgs):
     return f'const SEED: u64 = {seed};\nconst N_SEEDS: usize = {n_seeds};\nconst N_MSGS: usize = {n_msgs};\n' + tmpl
 
 
-def run(scr, what, seed=1, n_seeds=2, n_msgs=6, release=True, timeout=2400):
-    oc, out = vlib.native_test(scr, source(seed, n_seeds, n_msgs), 'diff_' + what, release=release, timeout=timeout)
-    msgs = [l.strip() for l in out.splitlines() if l.startswith('DIFF ') or l.startswith('STATS') or 'VERIF-PROPERTY' in l]
+def run(scr, what, seed=1, n_seeds=2, n_msgs=6, release=True, timeout=2400, checked=False):
+    oc, out = vlib.native_test(scr, source(seed, n_seeds, n_msgs), 'diff_' + what, release=release, timeout=timeout, checked=checked)
+    msgs = [l.strip() for l in out.splitlines() if l.startswith('DIFF ') or l.startswith('STATS') or 'VERIF-PROPERTY' in l or 'panicked at src/' in l]
     if oc == 'error':
         msgs.append(out[-1200:])
     return oc, msgs
